@@ -48,6 +48,7 @@ func vfLibBaseFiles(t *testing.T, dir string) []vfBaseFile {
 		{"lib-sb3-two-datasets", []interface{}{WithSuperblockVersion(SuperblockV3)}, []vfOp{mk("/a", "i64", []uint64{3}), {Op: "write", Path: "/a", Pat: 1}, mk("/b", "str4", []uint64{2}), {Op: "write", Path: "/b", Pat: 1}}},
 		{"lib-sb2-dense-attrs", nil, append([]vfOp{mk("/d", "i32", []uint64{2}), {Op: "write", Path: "/d", Pat: 1}}, attrs("/d", 9)...)},
 		{"lib-sb2-chunked", nil, []vfOp{{Op: "mkds", Path: "/c", Type: "f64", Dims: []uint64{5}, Chunk: []uint64{2}}, {Op: "write", Path: "/c", Pat: 1}, {Op: "mkds", Path: "/c2", Type: "i32", Dims: []uint64{3, 4}, Chunk: []uint64{2, 3}}, {Op: "write", Path: "/c2", Pat: 2}}},
+		{"lib-sb2-group-dense-attrs", nil, append([]vfOp{{Op: "mkgroup", Path: "/g"}, mk("/g/d", "i32", []uint64{2})}, attrs("/g", 9)...)},
 		{"lib-sb2-links", nil, []vfOp{{Op: "mkgroup", Path: "/g"}, mk("/g/d", "f32", []uint64{3}), {Op: "write", Path: "/g/d", Pat: 1}, {Op: "hardlink", Path: "/hd", Target: "/g/d"}, {Op: "hardlink", Path: "/hg", Target: "/g"}}},
 	}
 	var out []vfBaseFile
@@ -432,7 +433,7 @@ func TestVerif_C17(t *testing.T) {
 	if !vosActive {
 		r.Cap("the os->vos import redirection is not active in this build (instrumentation degraded): only truncation is enumerated")
 	}
-	r.Rule("base files: 6 library-written files (one per feature) and small reference-library files with distinct feature signatures; (a) every truncation length 0..size-1 of every base file; (b) for every base file and every k, the k-th ReadAt of the full read-API traversal (Open, Walk, Info, Read, ReadSlice of the full extent twice on the same handle, full chunk iteration, ReadStrings, ReadCompound, Attributes+ReadValue) failing outright, and returning short with EOF; (c) for a 20-call write history (groups, contiguous and chunked datasets, compact and dense attributes, a hard link, variable-length data rolling over a heap collection) under superblock 2 and 0, every k-th WriteAt / ReadAt / Sync failing (outright, and short for writes): the API call in which the fault fires must return an error, nothing may panic, Close must return. In (a),(b) every answer must be an error or identical to the intact file's and no member or attribute may be silently missing; non-trivial = the damaged file still opened")
+	r.Rule("base files: 7 library-written files (one per feature) and small reference-library files with distinct feature signatures; (a) every truncation length 0..size-1 of every base file; (b) for every base file and every k, the k-th ReadAt of the full read-API traversal (Open, Walk, Info, Read, ReadSlice of the full extent twice on the same handle, full chunk iteration, ReadStrings, ReadCompound, Attributes+ReadValue) failing outright, and returning short with EOF; (c) for a 20-call write history (groups, contiguous and chunked datasets, compact and dense attributes, a hard link, variable-length data rolling over a heap collection) under superblock 2 and 0, every k-th WriteAt / ReadAt / Sync failing (outright, and short for writes): the API call in which the fault fires must return an error, nothing may panic, Close must return. In (a),(b) every answer must be an error or identical to the intact file's and no member or attribute may be silently missing; non-trivial = the damaged file still opened")
 
 	// (a) truncation
 	for _, b := range bases {
